@@ -35,7 +35,10 @@ func TestMinimize(t *testing.T) {
 	fails := func(ops []Op) (bool, string) {
 		q := p
 		q.Ops = ops
+		chain := &backupChain{}
+		defer chain.close()
 		_, err := Run(q, func(in *Interp) {
+			extSetup(map[string]func(*Interp, Op) error{"backup": backupOpFor(chain), "stream": streamOp})(in)
 			in.Strict = strict
 			if os.Getenv("VERIF_MIN_STRICT") == "stale" {
 				in.Strict, in.StrictStale = false, true
